@@ -88,6 +88,10 @@ EngineClauses(m, e) ==
         <<"EngineOutbound", e.called # want>>,
         \* and names the hijack address when the rule has one
         <<"EngineHijack",   hijack /\ e.called = want /\ e.aIP # exp.hij>>,
+        \* ... and only that one: a resolved address of the other family that survives the rewrite lets an outbound
+        \* that prefers that family reach the original host instead of the hijack address (seeded change C09-r2)
+        <<"EngineHijack_OtherFamilyLeaks", hijack /\ e.called = want /\ e.aHasRI
+              /\ (IF Len(exp.hij) = 4 THEN e.a6 # <<>> ELSE e.a4 # <<>>)>>,
         \* how today's engine rewrites / leaves the request (not part of the statement)
         <<"DRIFT_EngineRewrite", hijack /\ e.called = want /\
               ~( e.aPort = e.port /\ e.aHasRI
